@@ -199,6 +199,10 @@ def interrupt_replay(text, options, sig):
         full = [(a['tag'], a['msg']) for a in E2.erecord['actions']]
         if full[:n0] != before:
             fails.append('not-a-prefix')
+        else:
+            jf = json.loads(E2.json())['actions'][:n0]
+            if jf != j['actions'][:n0]:
+                fails.append('not-a-prefix: an action differs from the uninterrupted record')
     return dict(violated=bool(fails), detail=fails)
 
 
@@ -225,7 +229,7 @@ def run_interrupt(spec, res, pristine, budget):
 
         def on_state(sig, E_):
             fails = render_interrupted(E_)
-            states.append((sig, [(a['tag'], a['msg']) for a in E_.erecord['actions']], fails))
+            states.append((sig, [(a['tag'], a['msg'], tuple(sorted(a.keys()))) for a in E_.erecord['actions']], fails))
         signal.signal(signal.SIGALRM, _alarm)
         signal.setitimer(signal.ITIMER_REAL, 180)
         try:
@@ -233,7 +237,7 @@ def run_interrupt(spec, res, pristine, budget):
         finally:
             signal.setitimer(signal.ITIMER_REAL, 0)
         res['reach']['record-states'] = res['reach'].get('record-states', 0) + n
-        final = [(a['tag'], a['msg']) for a in E.erecord['actions']]
+        final = [(a['tag'], a['msg'], tuple(sorted(a.keys()))) for a in E.erecord['actions']]
         for sig, acts, fails in states:
             if final[:len(acts)] != acts:
                 fails = fails + ['not-a-prefix']
